@@ -1111,10 +1111,6 @@ func (b *Builder) history(root ssa.Value, at ssa.Instruction, depth int) []*Term
 		return []*Term{b.mk("deep", "", nil)}
 	}
 	root = b.Root(root)
-	type ev struct {
-		ins  ssa.Instruction
-		term *Term
-	}
 	var must, may []ev
 	for _, blk := range b.Fn.Blocks {
 		for _, ins := range blk.Instrs {
@@ -1166,6 +1162,7 @@ func (b *Builder) history(root ssa.Value, at ssa.Instruction, depth int) []*Term
 			}
 		}
 	}
+	must, may = b.clearedByReset(must, may, at)
 	// order: an event precedes another if it dominates it, or can reach it but not vice versa
 	type oev struct {
 		ev
@@ -1337,6 +1334,123 @@ func substTerm(t *Term, old string, repl *Term) *Term {
 		return t
 	}
 	return n
+}
+
+type ev struct {
+	ins  ssa.Instruction
+	term *Term
+}
+
+// clearedByReset canonicalises the history of a hash.Hash: what was written before a Reset that lies on every
+// way to `at` does not matter, and a Reset with nothing left before it is a no-op. `h.Reset()` at the top of a
+// retry loop, at its bottom, or a fresh hash per iteration then give the same state at `h.Sum`.
+func (b *Builder) clearedByReset(must, may []ev, at ssa.Instruction) ([]ev, []ev) {
+	isReset := func(e ev) bool {
+		return e.term != nil && e.term.Op == "call" && e.term.Name == "(hash.Hash).Reset" && len(e.term.Args) == 1 && e.term.Args[0].Op == "self"
+	}
+	hasReset := false
+	for _, e := range append(append([]ev{}, must...), may...) {
+		if isReset(e) {
+			hasReset = true
+		}
+	}
+	if !hasReset {
+		return must, may
+	}
+	reachAvoid := func(from, to ssa.Instruction, avoid ssa.Instruction) bool {
+		fb, tb, ab := from.Block(), to.Block(), avoid.Block()
+		if fb == tb && instrIndex(from) < instrIndex(to) {
+			// straight down the block: passes `avoid` only if it lies in between
+			if !(ab == fb && instrIndex(avoid) > instrIndex(from) && instrIndex(avoid) < instrIndex(to)) {
+				return true
+			}
+		}
+		if ab == fb && instrIndex(avoid) > instrIndex(from) {
+			return false // the rest of from's block contains avoid
+		}
+		seen := map[*ssa.BasicBlock]bool{}
+		var dfs func(x *ssa.BasicBlock) bool
+		dfs = func(x *ssa.BasicBlock) bool {
+			for _, sx := range x.Succs {
+				if sx == tb {
+					// entering to's block: avoid lies before `to` there?
+					if ab == tb && instrIndex(avoid) < instrIndex(to) {
+						continue
+					}
+					return true
+				}
+				if sx == ab || seen[sx] {
+					continue
+				}
+				seen[sx] = true
+				if dfs(sx) {
+					return true
+				}
+			}
+			return false
+		}
+		return dfs(fb)
+	}
+	all := append(append([]ev{}, must...), may...)
+	cleared := map[ssa.Instruction]bool{}
+	for _, r := range all {
+		if !isReset(r) {
+			continue
+		}
+		for _, e := range all {
+			if e.ins == r.ins || isReset(e) {
+				continue
+			}
+			if b.canReach(e.ins, r.ins) && !reachAvoid(e.ins, at, r.ins) {
+				cleared[e.ins] = true
+			}
+		}
+	}
+	// a Reset is dropped when every way from it to `at` re-executes all surviving events (it only precedes them),
+	// or when it dominates `at` and nothing survives before it
+	var nm, ny []ev
+	for _, e := range must {
+		if !cleared[e.ins] {
+			nm = append(nm, e)
+		}
+	}
+	for _, e := range may {
+		if !cleared[e.ins] {
+			ny = append(ny, e)
+		}
+	}
+	dropReset := func(r ev, others []ev) bool {
+		for _, o := range others {
+			if o.ins == r.ins {
+				continue
+			}
+			if isReset(o) {
+				continue
+			}
+			if reachAvoid(r.ins, at, o.ins) && !InstrDominates(r.ins, o.ins) {
+				return false
+			}
+			if InstrDominates(o.ins, r.ins) && InstrDominates(r.ins, at) {
+				return false // something definitely precedes this definite Reset: keep it (it clears nothing we dropped? it would have)
+			}
+		}
+		return true
+	}
+	others := append(append([]ev{}, nm...), ny...)
+	var fm, fy []ev
+	for _, e := range nm {
+		if isReset(e) && dropReset(e, others) {
+			continue
+		}
+		fm = append(fm, e)
+	}
+	for _, e := range ny {
+		if isReset(e) && dropReset(e, others) {
+			continue
+		}
+		fy = append(fy, e)
+	}
+	return fm, fy
 }
 
 // pathTerm prints the address path from root to addr (fields, indices).
